@@ -15,6 +15,8 @@ attribute chains) M that occur as `M.conj().T` / `M.T.conj()`.
 from __future__ import annotations
 
 import ast
+import json
+import os
 
 from ..engine import Ctx
 from ..report import Report
@@ -54,13 +56,43 @@ def _bare_transposes(fn: ast.AST, name: str) -> list[int]:
             and id(n) not in covered]
 
 
+TABLE = os.path.join(os.path.dirname(os.path.dirname(
+    os.path.abspath(__file__))), 'tables', 'adjoint.json')
+
+
+def reference() -> dict[str, list[str]]:
+    """(function qualname -> names adjoined there) on the pinned tree; the
+    instances confirmed then stay obligations: turning the only
+    `M.conj().T` of a function into `M.T` removes the belief together with
+    its contradiction, so the belief is remembered."""
+    try:
+        with open(TABLE) as fh:
+            return json.load(fh)
+    except OSError:
+        return {}
+
+
+def build_table(root: str = '/repo') -> dict[str, list[str]]:
+    ctx = Ctx(root)
+    out = {}
+    for f in ctx.index.all_functions():
+        names = sorted(_adjoined(f.node))
+        if names:
+            out[f'{f.path}:{f.qualname}'] = names
+    return out
+
+
 def rule_adjoint(ctx: Ctx, rep: Report, prefixes: tuple[str, ...],
                  floor: int) -> int:
     n = 0
+    ref = reference()
     for f in sorted(ctx.index.all_functions(), key=lambda f: f.qualname):
         if not f.path.startswith(prefixes):
             continue
-        for name, line in sorted(_adjoined(f.node).items()):
+        found = _adjoined(f.node)
+        for name in ref.get(f'{f.path}:{f.qualname}', []):
+            found.setdefault(name, f.lineno)
+        for name, line in sorted(found.items()):
             n += 1
             rep.count()
             rep.seen(f.qualname)
